@@ -18,4 +18,8 @@ CHECKS = {
    technique="explicit-state BFS over abstract memory states with every edge executed on the real update routine by history replay, plus exhaustive enumeration of all candidate sequences to a depth bound",
    text="The correction-pair memory has a small abstract state (letters of the stored pairs). All states x 7 candidate letters (4 accepted, 3 rejected kinds) are explored for maxcor 1..3; every edge is executed on a fresh real object, the implementation's read-back state must equal the model's, and the full oracle (compact == dense BFGS, SPD, secant, bound on pairs, curvature of stored pairs, rejected => bitwise untouched, oldest evicted) is evaluated after every step. All sequences to depth maxcor+2 / 5 validate the canonicalisation; 40-step sequences cover maxcor 1..10, n<=12; updates intercepted in real runs cover the solver's own call pattern.",
    note="dense textbook BFGS recursion is the specification; 1e-8 relative; conditioning above 1e4 excluded from the intercepted runs (both sides of the comparison lose digits there)"),
+ "C11": dict(engine="E6 component grid + E2 scripted environment", level="exploration", ref="DESIGN.md 4/C11",
+   technique="exhaustive enumeration of line-search calls (objective x box x start x direction x iteration x cap x tolerances) and of ALL environment answer scripts up to a length bound, each executed on the real line_search",
+   text="28 800 real-objective calls per variant (complete product incl. caps 1..20) and all 25^d scripted answer sequences (d<=3 quick, d<=4 thorough) drive the More-Thuente iteration through every branch of its first trials; the harness checks box membership of every evaluated point exactly, the evaluation count, and strict decrease at the returned step with its own evaluation.",
+   note="alpha_max recomputed by the harness (1.0 at iteration 0 per the routine's contract); scripted environments are total functions"),
 }
